@@ -185,6 +185,14 @@ pub struct World {
     /// when set, the next pass-through bank added uses a Switchboard price account with this value
     /// (the *SwitchboardPull variant of its oracle setup) instead of the Pyth one
     pub venue_swb_next: Option<SwbPx>,
+    /// bank-creating transactions sent during set-up, with the closed world as it was just before
+    /// each of them; they are shown to the monitors at the next monitored execution
+    pub creation_journal: Vec<(Vec<Instruction>, TxOut, Shadow)>,
+    /// when set, bank-creating instructions name this key as the group admin and are signed by it
+    pub create_as: Option<Keypair>,
+    /// when set, every monitored execution is preceded by simulations in which each known identity
+    /// among the signers is replaced by this funded key that holds no role anywhere
+    pub impostor: Option<Keypair>,
 }
 
 pub fn wi(x: f64) -> WrappedI80F48 {
@@ -235,6 +243,9 @@ impl World {
             last_pre: Shadow::new(),
             venue_autorefresh: true,
             venue_swb_next: None,
+            creation_journal: vec![],
+            create_as: None,
+            impostor: None,
         };
         w.chain.set_time(start_time.max(w.chain.now()));
         let p = w.chain.payer.pubkey();
@@ -250,6 +261,29 @@ impl World {
         w
     }
 
+    /// turn on the impostor probes (see `impostor_probes`): a funded system account without any role
+    pub async fn enable_impostor(&mut self) {
+        let k = self.next_kp();
+        let p = self.chain.payer.pubkey();
+        let r = self.raw_send(&[system_instruction::transfer(&p, &k.pubkey(), 100_000_000_000)], &[]).await;
+        assert!(r.ok(), "funding the impostor failed: {}", r.err_string());
+        self.impostor = Some(k);
+    }
+    /// the key that signs bank-creating instructions as the group admin
+    fn creator(&self, group: usize) -> Keypair {
+        self.create_as.as_ref().map(clone_kp).unwrap_or_else(|| clone_kp(&self.groups[group].admin))
+    }
+    /// like `raw_send`, for bank-creating transactions: an accepted one is journalled together with
+    /// the world as it was before, and judged by the monitors at the next monitored execution
+    pub async fn create_send(&mut self, ixs: &[Instruction], signers: &[&Keypair]) -> TxOut {
+        let pre = self.shadow.clone();
+        let out = self.chain.send(ixs, signers).await;
+        if out.ok() {
+            self.refresh_for(ixs).await;
+            self.creation_journal.push((ixs.to_vec(), out.clone(), pre));
+        }
+        out
+    }
     /// send + refresh shadow for every writable account of the transaction (no monitors)
     pub async fn raw_send(&mut self, ixs: &[Instruction], signers: &[&Keypair]) -> TxOut {
         let out = self.chain.send(ixs, signers).await;
@@ -615,8 +649,8 @@ impl World {
     pub async fn add_bank_with_oracle(&mut self, group: usize, mint: usize, cfg: BankConfigCompact, oracle: OracleD) -> Result<usize, TxOut> {
         let bk = self.next_kp();
         let b = bk.pubkey();
+        let admin = self.creator(group);
         let g = &self.groups[group];
-        let admin = clone_kp(&g.admin);
         let gk = g.key;
         let p = self.chain.payer.pubkey();
         let m = &self.mints[mint];
@@ -626,7 +660,7 @@ impl World {
             OracleD::Swb(o) => ixs.push(ix::configure_bank_oracle(gk, admin.pubkey(), b, OracleSetup::SwitchboardPull as u8, *o, vec![ix::ro(*o)])),
             _ => {}
         }
-        let r = self.raw_send(&ixs, &[&bk, &admin]).await;
+        let r = self.create_send(&ixs, &[&bk, &admin]).await;
         if !r.ok() {
             return Err(r);
         }
@@ -662,7 +696,7 @@ impl World {
         }
         let gk = self.groups[group].key;
         let (ixn, b) = ix::add_bank_permissionless(gk, p, lst_mint, sol_pool, stake_pool, 0, sol_oracle);
-        let r = self.raw_send(&[ixn], &[]).await;
+        let r = self.create_send(&[ixn], &[]).await;
         if !r.ok() {
             return Err(r);
         }
@@ -690,7 +724,7 @@ impl World {
         let supply = self.new_token_account(mint, lma, liq).await;
         let (mk, dec, prog) = (self.mints[mint].key, self.mints[mint].decimals, self.mints[mint].program());
         let gk = self.groups[group].key;
-        let admin = clone_kp(&self.groups[group].admin);
+        let admin = self.creator(group);
         let p = self.chain.payer.pubkey();
         let bank = ix::bank_pda(&gk, &mk, seed);
         let k = BankKeys::of(bank);
@@ -714,7 +748,7 @@ impl World {
         cfg.oracle = oracle;
         cfg.oracle_setup = if swb.is_some() { OracleSetup::KaminoSwitchboardPull } else { OracleSetup::KaminoPythPush };
         let (ixn, b) = ix::add_bank_kamino(gk, admin.pubkey(), p, mk, seed, reserve, obligation, prog, cfg, vec![ix::ro(oracle), ix::ro(reserve)]);
-        let out = self.raw_send(&[ixn], &[&admin]).await;
+        let out = self.create_send(&[ixn], &[&admin]).await;
         if !out.ok() {
             return Err(out);
         }
@@ -786,7 +820,7 @@ impl World {
         let vault = self.new_token_account(mint, signer, 0).await;
         let (mk, dec, prog) = (self.mints[mint].key, self.mints[mint].decimals, self.mints[mint].program());
         let gk = self.groups[group].key;
-        let admin = clone_kp(&self.groups[group].admin);
+        let admin = self.creator(group);
         let p = self.chain.payer.pubkey();
         let mut m: MinimalSpotMarket = bytemuck::Zeroable::zeroed();
         m.pubkey = sm_key;
@@ -803,7 +837,7 @@ impl World {
         cfg.oracle = oracle;
         cfg.oracle_setup = if swb.is_some() { OracleSetup::DriftSwitchboardPull } else { OracleSetup::DriftPythPull };
         let (ixn, b) = ix::add_bank_drift(gk, admin.pubkey(), p, mk, seed, sm_key, prog, cfg, vec![ix::ro(oracle), ix::ro(sm_key)]);
-        let out = self.raw_send(&[ixn], &[&admin]).await;
+        let out = self.create_send(&[ixn], &[&admin]).await;
         if !out.ok() {
             return Err(out);
         }
@@ -844,7 +878,7 @@ impl World {
         let col_supply = self.new_token_account(mint, lma, 0).await;
         let (mk, dec, prog) = (self.mints[mint].key, self.mints[mint].decimals, self.mints[mint].program());
         let gk = self.groups[group].key;
-        let admin = clone_kp(&self.groups[group].admin);
+        let admin = self.creator(group);
         let p = self.chain.payer.pubkey();
         let mut r: SolendMinimalReserve = bytemuck::Zeroable::zeroed();
         r.last_update_slot = self.chain.clock.slot;
@@ -862,7 +896,7 @@ impl World {
         cfg.oracle = oracle;
         cfg.oracle_setup = if swb.is_some() { OracleSetup::SolendSwitchboardPull } else { OracleSetup::SolendPythPull };
         let (ixn, b, obligation) = ix::add_bank_solend(gk, admin.pubkey(), p, mk, seed, reserve, prog, cfg, vec![ix::ro(oracle), ix::ro(reserve)]);
-        let out = self.raw_send(&[ixn], &[&admin]).await;
+        let out = self.create_send(&[ixn], &[&admin]).await;
         if !out.ok() {
             return Err(out);
         }
@@ -1085,13 +1119,100 @@ impl World {
     /// transaction is evaluated on its own pre/post state (also inside brackets), then the commit.
     pub async fn exec(&mut self, m: &mut Mon, ixs: &[Instruction], signers: &[&Keypair]) -> TxOut {
         crate::refm::set_slot(self.chain.clock.slot);
+        self.judge_creations(m);
+        if self.impostor.is_some() && !signers.is_empty() {
+            self.impostor_probes(m, ixs, signers).await;
+        }
         let out = self.chain.send(ixs, signers).await;
         self.observe(m, ixs, &out).await;
         out
     }
+    /// Bank-creating transactions of the set-up phase, each judged on the world as it was then.
+    pub fn judge_creations(&mut self, m: &mut Mon) {
+        if self.creation_journal.is_empty() {
+            return;
+        }
+        let journal = std::mem::take(&mut self.creation_journal);
+        let current = std::mem::take(&mut self.shadow);
+        let saved_last_pre = std::mem::take(&mut self.last_pre);
+        for (ixs, out, pre) in journal {
+            self.shadow = pre;
+            self.last_pre.clear();
+            for i in &ixs {
+                for mt in &i.accounts {
+                    if mt.is_writable {
+                        if let Some(a) = self.shadow.get(&mt.pubkey) {
+                            self.last_pre.insert(mt.pubkey, a.clone());
+                        }
+                    }
+                }
+            }
+            self.step_events(m, &out);
+            m.on_tx_commit(self, &ixs, &out);
+            m.r.count("setup.bank_creations_judged");
+        }
+        self.shadow = current;
+        self.last_pre = saved_last_pre;
+    }
+    /// The same transaction with one known identity among its signers replaced, everywhere it is
+    /// named, by a funded key that holds no role and owns nothing: simulated, and judged like any
+    /// other probe (an acceptance that changes what only the replaced signer may change is a C08
+    /// violation raised by the attribution / role monitors).
+    async fn impostor_probes(&mut self, m: &mut Mon, ixs: &[Instruction], signers: &[&Keypair]) {
+        let imp = match &self.impostor {
+            Some(k) => clone_kp(k),
+            None => return,
+        };
+        let mut known: std::collections::HashSet<Pubkey> = self.users.iter().map(|u| u.kp.pubkey()).collect();
+        for g in &self.groups {
+            let r = g.roles();
+            for k in [r.admin, r.emode, r.curve, r.limit, r.emissions, r.metadata, r.risk] {
+                known.insert(k);
+            }
+        }
+        known.insert(self.fee_admin.pubkey());
+        known.remove(&self.chain.payer.pubkey());
+        let mut done = 0;
+        for s in signers {
+            let sk = s.pubkey();
+            if !known.contains(&sk) || sk == imp.pubkey() {
+                continue;
+            }
+            // only where a marginfi instruction asks for this signature
+            if !ixs.iter().any(|i| i.program_id == ix::MFI && i.accounts.iter().any(|a| a.pubkey == sk && a.is_signer)) {
+                continue;
+            }
+            let ixs2: Vec<Instruction> = ixs
+                .iter()
+                .map(|i| {
+                    let mut j = i.clone();
+                    for a in j.accounts.iter_mut() {
+                        if a.pubkey == sk {
+                            a.pubkey = imp.pubkey();
+                        }
+                    }
+                    j
+                })
+                .collect();
+            let signers2: Vec<Keypair> = signers.iter().map(|k| if k.pubkey() == sk { clone_kp(&imp) } else { clone_kp(k) }).collect();
+            let refs: Vec<&Keypair> = signers2.iter().collect();
+            let o = self.probe(m, &ixs2, &refs).await;
+            m.r.count(if o.ok() { "impostor.probes_accepted" } else { "impostor.probes_rejected" });
+            if o.ok() {
+                for i in ixs.iter().filter(|i| i.program_id == ix::MFI) {
+                    m.r.count(&format!("impostor.accepted_with/{}", crate::kinds::Kind::of(&i.data).name()));
+                }
+            }
+            done += 1;
+            if done >= 2 {
+                break;
+            }
+        }
+    }
     /// Simulate (state preserving) and feed the per-instruction monitors if it would succeed.
     pub async fn probe(&mut self, m: &mut Mon, ixs: &[Instruction], signers: &[&Keypair]) -> TxOut {
         crate::refm::set_slot(self.chain.clock.slot);
+        self.judge_creations(m);
         let out = self.chain.simulate(ixs, signers).await;
         if out.ok() {
             // evaluate on a scratch copy of the shadow
